@@ -111,8 +111,23 @@ def loopVariableInvisibleToCallee (asts : List Node) : Bool :=
         all.any (fnMentionsFree name)
     | _ => false
 
+/-- index of the first input on which two configurations differ (visible part) -/
+def firstVisibleDiff : List String → List String → Nat → Option Nat
+  | [], [], _ => none
+  | x :: xs, y :: ys, i => if x == y then firstVisibleDiff xs ys (i + 1) else some i
+  | _, _, i => some i
+
+/-- the class can only explain a difference that STARTS at an input by which the loop, the call in its body and the
+function reading the variable have all been submitted: only the inputs up to the first differing one are inspected
+(the whole session used to be, which excused differences that began before the loop was even written) -/
 def c05Class (c : Case) : String :=
-  if loopVariableInvisibleToCallee (c.asts.filterMap parseAst) then "loop-variable-invisible-to-callee" else ""
+  let a := visible (cfgObs c "A"); let b := visible (cfgObs c "B")
+  let cc := visible (cfgObs c "C"); let d := visible (cfgObs c "D")
+  let upTo := match firstVisibleDiff a b 0, firstVisibleDiff cc d 0 with
+    | some i, some j => min i j + 1
+    | some i, none | none, some i => i + 1
+    | none, none => 0
+  if loopVariableInvisibleToCallee ((c.asts.take upTo).filterMap parseAst) then "loop-variable-invisible-to-callee" else ""
 
 def runCase (inp obs : String) : CaseResult :=
   match parseCase inp obs with
